@@ -88,6 +88,7 @@ newer last term at heal time) and, when a node is killed / reconnected, the lead
 `_SyncObj__raftMatchIndex` via `sim.P` and `sim.last_index` (COVERAGE classification only: was the restarted node
 confirmed with an unchanged leader, is the leader's matchIndex beyond what the node has left).  No oracle uses any of these.
 """
+import collections
 import hashlib
 import json
 import logging
@@ -111,6 +112,7 @@ CORPUS = os.path.join(os.path.dirname(os.path.dirname(HERE)), "corpus", "c05")
 DTS = [0.0, 0.0009765625, 0.03125, 0.0625, 0.0625, 0.125, 0.125, 0.25, 0.5, 1.0, 2.0]
 BIG = 2 ** 16
 _COUNTER = __import__("itertools").count()
+_ALPH = "abcdefghijklmnopqrstuvwxyzABCDEFGHIJKLMNOPQRSTUVWXYZ0123456789+/"
 SPIN_DT = 0.0009765625     # virtual cost of one useless send inside the leader's send loop, see Hist._guard
 SEND_CAP = 400000
 
@@ -166,6 +168,7 @@ class Hist(object):
         self.notes = {}
         self.down, self.C, self.CV, self.CO = [], list(self.A), list(self.V), list(self.O)
         self.spins = 0
+        self.rnd_len = 96
         self.kills = []            # coverage records of kill / restart / reconnect (see _note_kill)
         self.pending = {}          # restarted node -> its record, until it is connected to a leader again
         self._guard()
@@ -301,6 +304,33 @@ class Hist(object):
                     progress = True
         return n
 
+    def deliver_limited(self, k, step, xfer):
+        """bounded bandwidth: at most k messages per directed link in this step (FIFO, nothing lost, every link gets
+        its turn).  `xfer` records, per destination, at which step a snapshot transfer started / completed."""
+        s = self.sim
+        budget = {}
+        progress = True
+        while progress:
+            progress = False
+            for c in sorted(s.chan.keys()):
+                q = s.chan[c]
+                while q and budget.get(c, 0) < k:
+                    budget[c] = budget.get(c, 0) + 1
+                    m = s.deliver(c[0], c[1])
+                    progress = True
+                    ser = m.get("serialized") if isinstance(m, dict) else None
+                    if ser is not None:
+                        x = xfer.setdefault(c[1], {"start": None, "chunks": 0, "longest": 0, "done": 0, "restarts": 0})
+                        if ser[1]:
+                            if x["start"] is not None:
+                                x["restarts"] += 1
+                            x["start"], x["chunks"] = step, 0
+                        x["chunks"] += 1
+                        if ser[2] and x["start"] is not None:
+                            x["longest"] = max(x["longest"], step - x["start"])
+                            x["done"] += 1
+                            x["start"] = None
+
     # -- generator helpers -----------------------------------------------------------------------
     def run(self, steps, dt=DT, among=None):
         self.ev("run", steps, dt, list(among) if among is not None else None)
@@ -328,6 +358,8 @@ class Hist(object):
         self.seq += 1
         x = "c%d" % self.seq
         B = self.B
+        if cls == "rnd":                        # hardly compressible: makes the gzip'ed snapshot really big
+            return x + "_" + "".join(self.rng.choice(_ALPH) for _ in range(self.rnd_len))
         if B >= BIG or cls == "tiny":
             return x
         if cls == "mid":
@@ -695,6 +727,82 @@ def _split_phase(h, A, B, mode, rounds, steps, dt, rng=None):
     rec["same_term_leaders"] += 1 if termsA & set(t for (v, t) in claimed if v not in inA) else 0
 
 
+def d_slow_snapshot(h, var):
+    """a node (voter or read-only) lags behind the leader's compacted prefix, the state is big and hardly
+    compressible, logCompactionBatchSize tiny: the snapshot is MANY chunks, and the quiet period runs with a
+    bounded bandwidth (`link_rate` messages per link and step), so the transfer takes several election timeouts.
+    Nothing is lost and ticks are timely; the chunks themselves are the leader's sign of life."""
+    h.rnd_len = var.get("rnd_len", 96)
+    h.connect_all()
+    L = h.elect()
+    if L is None:
+        return
+    F = h.O[-1] if (var["who"] == "observer" and h.O) else [v for v in h.V if v != L][var.get("which", 0) % (len(h.V) - 1)]
+    h.notes["lagging"] = F
+    rest = [x for x in h.A if x != F]
+    h.submit(L, "tiny", 2)
+    h.run(4)
+    h.isolate([F], var["mode"])
+    left = var["m"]
+    while left > 0:
+        h.submit(L, "rnd", min(8, left))
+        left -= 8
+        h.run(2, DT, rest)
+    h.run(4, DT, rest)
+    h.ev("compact", L)
+    h.run(4, DT, rest)
+    if var.get("others_compact"):
+        for v in rest:
+            if v != L:
+                h.ev("compact", v)
+        h.run(3, DT, rest)
+    h.submit(L, "tiny", var.get("after", 2))
+    h.run(3, DT, rest)
+
+
+def d_snapshot_then_leader_down(h, var):
+    """a voter F catches up by SNAPSHOT while everybody is there; then the leader replicates a few more entries to F
+    only and goes away for good (with 5 voters: another one too): the rest is a bare majority in which F, the node
+    that installed the snapshot, has the most complete log and must win.  Whatever F learnt about the member set
+    from the snapshot decides whether it can."""
+    h.connect_all()
+    L = h.elect()
+    if L is None:
+        return
+    others = [v for v in h.V if v != L]
+    F = others[var.get("which", 0) % len(others)]
+    rest = [x for x in h.A if x != F]
+    h.submit(L, "mid", 2)
+    h.run(4)
+    h.isolate([F], var["mode"])
+    h.submit(L, "mid", var["m"])
+    h.run(6, DT, rest)
+    h.ev("compact", L)
+    h.run(4, DT, rest)
+    for (a, b) in h.links([F]):
+        h.ev("connect", a, b)
+    h.run(var.get("catchup", 16))                    # F installs the snapshot and follows again
+    if var.get("restart_snap") and h.p.get("journal"):
+        h.kill(F)                                    # ... and comes back from its own dump file + journal
+        h.run(2)
+        h.restart(F)
+        h.run(6)
+    if h.leader() != L:
+        return
+    for v in others:                                 # the leader reaches F only
+        if v != F:
+            h.sever(*((L, v) if (L, v) in h.pairs else (v, L)), mode="noticed")
+    h.submit(L, "tiny", var.get("tail", 2))
+    h.run(3, DT, [L, F])
+    down = [L]
+    spare = [v for v in others if v != F]
+    while len(down) < (len(h.V) - 1) // 2:
+        down.append(spare.pop())
+    h.notes["down"] = down
+    h.notes["lagging"] = F
+    h.notes["snapshot_node"] = F
+
+
 def d_even_split(h, var):
     """EVEN number of voters (4, 6) split exactly in half while elections run: at start-up before anybody leads
     (`startup`), or after a normal start when the leader's half and the other half lose each other (`later`); the
@@ -1047,7 +1155,8 @@ def d_random(h, var):
 GEN = {"partition": d_partition, "midburst": d_midburst, "stale_leader": d_stale_leader,
        "lag_snapshot": d_lag_snapshot, "uneven": d_uneven, "compactions": d_compactions,
        "term_inflation": d_term_inflation, "random": d_random, "old_long_vs_new_short": d_old_long_vs_new_short,
-       "even_split": d_even_split, "long_walkback": d_long_walkback, "observer_restart": d_observer_restart, "voter_restart_journal": d_voter_restart_journal,
+       "even_split": d_even_split, "slow_snapshot": d_slow_snapshot,
+       "snapshot_then_leader_down": d_snapshot_then_leader_down, "long_walkback": d_long_walkback, "observer_restart": d_observer_restart, "voter_restart_journal": d_voter_restart_journal,
        "voter_restart_leader_stays": d_voter_restart_leader_stays}
 
 
@@ -1184,11 +1293,18 @@ def scenario(repo, p, workdir=None):
     t_leader = t_sync = t_ack = None
     first_ok = stable_since = stable_L = None
     step = changes = 0
+    link_rate = p.get("link_rate")
+    xfer = {}
+    term_hist = collections.deque(maxlen=tail_steps + 1)
     while step < max_steps:
         for i in ticking:
             s.tick(i, DT)
-        h.deliver_all()
+        if link_rate:
+            h.deliver_limited(link_rate, step, xfer)
+        else:
+            h.deliver_all()
         step += 1
+        term_hist.append([s.objs[i]._getTerm() for i in h.C])
         L, why = _leader_view(h)
         if L is None or L != stable_L:
             if L is not None:
@@ -1237,6 +1353,13 @@ def scenario(repo, p, workdir=None):
         viol.append({"signature": "convergence:no-single-leader",
                      "what": "leadership does not settle: %s is named by everybody only since %.2f s, %d leader changes in %s"
                              % (L, (step - stable_since) * DT, changes, waited)})
+    # "one leader within a bounded number of election timeouts": once that is so, terms stop growing
+    if len(term_hist) > tail_steps:
+        grew = [(i, a, b) for i, a, b in zip(h.C, term_hist[0], term_hist[-1]) if b > a]
+        if grew:
+            viol.append({"signature": "convergence:terms-keep-growing",
+                         "what": "elections do not stop: during the last %.2f s the term of %s went %d -> %d (%d connected nodes "
+                                 "raised their term) after %s" % (tail_steps * DT, grew[0][0], grew[0][1], grew[0][2], len(grew), waited)})
     acked = [(res, err) for (node, cid, res, err) in s.callbacks if cid == post_cid]
     if post_cid is not None and not (acked and acked[0][1] == 0):
         detail = ("error-%s" % FAIL_NAMES.get(acked[0][1], acked[0][1])) if acked else \
@@ -1317,6 +1440,12 @@ def scenario(repo, p, workdir=None):
             elif m.get("reset"):
                 runs[a] = runs.get(a, 0) + 1
                 best = max(best, runs[a])
+    longest = max([x["longest"] for x in xfer.values()] + [0]) * DT
+    cov["link_rate"] = link_rate
+    cov["snapshot_transfer_s"] = longest
+    cov["snapshot_transfer_longer_than_timeout"] = longest > unit
+    cov["snapshot_transfer_restarts"] = sum(x["restarts"] for x in xfer.values())
+    cov["final_term"] = max(term_hist[-1]) if term_hist else None
     cov["walkback_rounds"] = best
     cov["walkback_longer_than_fallback"] = bool(h.down) and best * period > s.conf.get("leaderFallbackTimeout", 30.0)
     # commands that entered a node's state after the heal without being executed there came by snapshot
@@ -1352,6 +1481,12 @@ def scenario(repo, p, workdir=None):
                 rs["voter_stateless_match_beyond_log_end"] += 1
     cov["restarts"] = rs
     cov["variant"] = (p.get("var") or {}).get("variant")
+    cov["dynamic_membership"] = bool((p.get("conf") or {}).get("dynamicMembershipChange"))
+    # a connected voter holds state it never executed (= it installed a snapshot at some time) while the node that
+    # led at the heal is among the unreachable ones
+    cov["snapshot_node_left_without_its_leader"] = bool(
+        h.down and any(x in h.V and (x in lead0 or x == h.notes.get("stale")) for x in h.down)
+        and any(len(s.objs[i].log) > len(set(pos for pos, _ in s.execs[i])) for i in h.CV))
     cov["split"] = dict(h.notes.get("split") or {})
     cov["split_mode"] = (p.get("var") or {}).get("mode")
     h.close()
@@ -1444,6 +1579,14 @@ def draw_conf(rng, kind=None):
         c["appendEntriesUseBatch"] = False
     if rng.random() < 0.15:
         c["commandsWaitLeader"] = False
+    if rng.random() < 0.3 or kind == "snapshot_then_leader_down":
+        c["dynamicMembershipChange"] = True          # the option alone; no membership command is ever issued
+    if kind == "slow_snapshot":
+        c.update({"logCompactionBatchSize": rng.choice([32, 64, 128]), "logCompactionMinEntries": 100000,
+                  "logCompactionMinTime": 100000, "appendEntriesBatchSizeBytes": rng.choice([400, BIG]),
+                  "leaderFallbackTimeout": rng.choice([30.0, 2.0])})
+    if kind == "snapshot_then_leader_down":
+        c.update({"logCompactionMinEntries": 100000, "logCompactionMinTime": 100000})
     if kind == "stale_leader":
         c["leaderFallbackTimeout"] = 30.0
     if kind == "lag_snapshot":
@@ -1530,6 +1673,34 @@ def directed_params(rng):
                         "seed": rng.randrange(10 ** 6), "post": ["leader", "follower"][k % 2], "early": ["lagging", "leader"][k % 2],
                         "post_k": rng.randrange(4), "heal_all": True, "dumpfile": False,
                         "down": "notes", "down_mode": ["noticed", "silent"][k % 2], "down_ticks": k % 3 != 1, "down_fresh": True})
+    # a snapshot that takes several election timeouts on a link of bounded bandwidth
+    k = 0
+    for nv in (3, 5):
+        for who in ("voter", "observer"):
+            for dumpfile in (False, True):
+                k += 1
+                csz = None
+                conf = draw_conf(rng, "slow_snapshot")
+                out.append({"kind": "slow_snapshot", "nv": nv, "no": 1 + k % 2 if who == "observer" else [0, 1][k % 2], "conf": conf,
+                            "var": {"who": who, "which": k, "mode": modes[k % 4], "m": [40, 56, 72][k % 3], "rnd_len": [96, 128][k % 2],
+                                    "others_compact": k % 3 == 0, "after": k % 4},
+                            "seed": rng.randrange(10 ** 6), "post": ["leader", "follower"][k % 2], "early": "lagging",
+                            "post_k": rng.randrange(4), "heal_all": k % 2 == 0, "dumpfile": dumpfile, "down": "none",
+                            "link_rate": 1 if conf["logCompactionBatchSize"] >= 64 else 2})
+    # the node that installed a snapshot must win the next election in a bare majority
+    k = 0
+    for nv in (3, 5):
+        for dm in ("noticed", "silent"):
+            for rep in range(2):
+                k += 1
+                journal = rep == 1
+                out.append({"kind": "snapshot_then_leader_down", "nv": nv, "no": [0, 1][k % 2],
+                            "conf": draw_conf(rng, "snapshot_then_leader_down"),
+                            "var": {"which": k, "mode": modes[k % 4], "m": rng.randrange(6, 12), "catchup": 16, "tail": 1 + k % 3,
+                                    "restart_snap": journal and k % 2 == 0},
+                            "seed": rng.randrange(10 ** 6), "post": ["leader", "follower"][k % 2], "early": "follower",
+                            "post_k": rng.randrange(4), "heal_all": True, "dumpfile": False, "journal": journal,
+                            "down": "notes", "down_mode": dm, "down_ticks": k % 2 == 0, "down_fresh": True})
     # an even cluster split exactly in half while elections run
     k = 0
     for variant in ("startup", "later"):
@@ -1589,7 +1760,7 @@ def random_params(rng, n):
     out = []
     kinds = ["random", "random", "random", "lag_snapshot", "stale_leader", "partition", "midburst", "uneven",
              "compactions", "term_inflation", "old_long_vs_new_short", "observer_restart", "voter_restart_journal",
-             "voter_restart_leader_stays", "long_walkback", "even_split"]
+             "voter_restart_leader_stays", "long_walkback", "even_split", "slow_snapshot", "snapshot_then_leader_down"]
     modes = ["noticed", "silent", "inside", "outside"]
     for _ in range(n):
         kind = rng.choice(kinds)
@@ -1598,6 +1769,8 @@ def random_params(rng, n):
             nv = rng.choice([3, 4, 5])
         if kind == "even_split":
             nv = rng.choice([4, 4, 4, 6])
+        if kind in ("slow_snapshot", "snapshot_then_leader_down"):
+            nv = rng.choice([3, 3, 4, 5])
         if kind == "random" and rng.random() < 0.12:
             nv = 4
         no = rng.choice([0, 0, 1, 1, 2])
@@ -1609,6 +1782,15 @@ def random_params(rng, n):
             var = {"n": rng.choice([30, 60, 100, 160])}
             if nv == 4 and rng.random() < 0.45:
                 var["even_split"] = True            # a 2|2 split with submissions on both sides somewhere in the history
+        elif kind == "slow_snapshot":
+            var = {"who": rng.choice(["voter", "voter", "observer"]), "which": rng.randrange(4), "mode": rng.choice(modes),
+                   "m": rng.choice([24, 40, 56, 80]), "rnd_len": rng.choice([64, 96, 128]), "others_compact": rng.random() < 0.3,
+                   "after": rng.randrange(0, 5)}
+            if var["who"] == "observer":
+                no = max(no, 1)
+        elif kind == "snapshot_then_leader_down":
+            var = {"which": rng.randrange(4), "mode": rng.choice(modes), "m": rng.randrange(4, 14), "catchup": rng.choice([8, 16, 24]),
+                   "tail": rng.randrange(1, 5), "restart_snap": rng.random() < 0.5}
         elif kind == "even_split":
             var = {"variant": rng.choice(["startup", "startup", "later"]), "mode": rng.choice(["silent", "silent", "noticed"]),
                    "rounds": rng.randrange(2, 9), "steps": rng.choice([8, 12, 16, 24, 32]), "dt": rng.choice([DT, DT, 0.125, 0.03125]),
@@ -1659,8 +1841,10 @@ def random_params(rng, n):
             down = "notes" if rng.random() < 0.85 else "none"
         elif kind == "long_walkback":
             down = "notes"
-        elif kind == "even_split":
+        elif kind in ("even_split", "slow_snapshot"):
             down = "none"
+        elif kind == "snapshot_then_leader_down":
+            down = "notes"
         elif kind == "voter_restart_leader_stays":
             down = "none"                               # no fault at all after the restart
         else:
@@ -1673,7 +1857,7 @@ def random_params(rng, n):
             short_T = rng.choice([0.25, 0.25, 0.5, 1.0])
             down = rng.choice(["other", "max"])
             var["stale_cmds"], var["new_cmds"], var["compact"] = rng.randrange(3, 25), rng.randrange(3, 30), False
-        journal = kind == "voter_restart_journal" or (kind == "random" and rng.random() < 0.2)
+        journal = kind == "voter_restart_journal" or (kind in ("random", "snapshot_then_leader_down") and rng.random() < 0.2)
         if kind == "voter_restart_leader_stays":
             dumpfile, heal_all = var["variant"] == "dump_only", False
         else:
@@ -1683,7 +1867,12 @@ def random_params(rng, n):
             conf["leaderFallbackTimeout"] = rng.choice([0.25, 0.25, 0.5, 1.0, 2.0])
         if short_T is not None:
             conf.update({"leaderFallbackTimeout": short_T, "logCompactionMinEntries": 100000, "logCompactionMinTime": 100000})
-        out.append({"kind": kind, "nv": nv, "no": no, "conf": conf, "var": var,
+        link_rate = None
+        if kind == "slow_snapshot":
+            link_rate = rng.choice([1, 1, 2, 3])
+        elif rng.random() < 0.2:
+            link_rate = rng.randrange(1, 9)             # bounded bandwidth in the quiet period of any history
+        out.append({"link_rate": link_rate,"kind": kind, "nv": nv, "no": no, "conf": conf, "var": var,
                     "seed": rng.randrange(10 ** 6), "post": rng.choice(["leader", "follower", "follower", "observer"]),
                     "early": rng.choice(["lagging", "lagging", "follower", "observer", "leader"]),
                     "post_k": rng.randrange(4), "heal_all": heal_all,
@@ -1843,7 +2032,7 @@ def _run(ctx, workdir):
            "violating_histories": {}, "early_command_outcome": {},
            "healed_with_minority_down": {"histories": 0, "by_kind": {}}, "connected_log_shapes_at_heal": {},
            "old_long_vs_new_short": {}, "restarts": {}, "walkback_longer_than_fallback": {}, "max_walkback_rounds": 0,
-           "even_split": {}}
+           "even_split": {}, "bounded_bandwidth": {}, "dynamic_membership_option": {}}
     distinct = set()
     viols, sigs = [], set()
     errors = []
@@ -1878,6 +2067,25 @@ def _run(ctx, workdir):
                     _inc(cov["old_long_vs_new_short"], k_)
                     if c["down_voters"]:
                         _inc(cov["old_long_vs_new_short"], k_ + "_bare_majority_%d" % c["nv"])
+        if c.get("link_rate"):
+            bw = cov["bounded_bandwidth"]
+            _inc(bw, "histories")
+            _inc(bw, "link_rate_%d" % c["link_rate"])
+            if c["snapshot_transfer_longer_than_timeout"]:
+                _inc(bw, "snapshot_transfer_longer_than_raftMaxTimeout")
+                _inc(bw, "snapshot_transfer_longer_than_raftMaxTimeout_%s" % c["kind"])
+                if c["kind"] == "slow_snapshot":
+                    _inc(bw, "slow_snapshot_long_transfer_%s_%s" % ((p.get("var") or {}).get("who"),
+                                                                     "file" if p.get("dumpfile") else "memory"))
+            bw["max_snapshot_transfer_s"] = max(bw.get("max_snapshot_transfer_s", 0.0), c["snapshot_transfer_s"])
+        if c["dynamic_membership"]:
+            dm = cov["dynamic_membership_option"]
+            _inc(dm, "histories")
+            if c["state_installed_by_snapshot"]:
+                _inc(dm, "snapshot_installed_after_heal")
+            if c["snapshot_node_left_without_its_leader"]:
+                _inc(dm, "snapshot_node_left_without_its_leader")
+                _inc(dm, "snapshot_node_left_without_its_leader_%s" % c["down_mode"])
         sp = c.get("split") or {}
         if sp.get("phases"):
             es = cov["even_split"]
@@ -1955,7 +2163,7 @@ def _run(ctx, workdir):
             viols.append(vv)
 
     # causes before consequences (a replica that stays behind also loses its callbacks)
-    order = ["convergence:no-single-leader", "convergence:replica-stays-behind", "convergence:states-differ",
+    order = ["convergence:no-single-leader", "convergence:terms-keep-growing", "convergence:replica-stays-behind", "convergence:states-differ",
              "tick:", "convergence:post-heal"]
     viols.sort(key=lambda v: min([i for i, pre in enumerate(order) if v["signature"].startswith(pre)] or [9]))
     samples = [dict((k, v) for k, v in r["p"].items() if k != "events") for r in results[:1]] + \
@@ -1998,6 +2206,19 @@ def _run(ctx, workdir):
                        ("leader_stays_dump_only_match_beyond_log_end", 5, 80)):
         if rs.get(k_, 0) < ctx.scale(q_, t_):
             floors.append("restarts: %s = %d" % (k_, rs.get(k_, 0)))
+    bw = cov["bounded_bandwidth"]
+    if bw.get("snapshot_transfer_longer_than_raftMaxTimeout_slow_snapshot", 0) < ctx.scale(6, 100):
+        floors.append("slow_snapshot histories whose transfer outlasted raftMaxTimeout: %d"
+                      % bw.get("snapshot_transfer_longer_than_raftMaxTimeout_slow_snapshot", 0))
+    for v_ in ("voter_memory", "voter_file", "observer_memory", "observer_file"):
+        if bw.get("slow_snapshot_long_transfer_" + v_, 0) < 1:
+            floors.append("slow_snapshot variant %s never had a long transfer" % v_)
+    if bw.get("histories", 0) < ctx.scale(40, 1000):
+        floors.append("histories with bounded bandwidth: %d" % bw.get("histories", 0))
+    dm = cov["dynamic_membership_option"]
+    if dm.get("histories", 0) < ctx.scale(80, 2000) or dm.get("snapshot_node_left_without_its_leader", 0) < 4:
+        floors.append("dynamicMembershipChange: %d histories, snapshot node left without its leader %d"
+                      % (dm.get("histories", 0), dm.get("snapshot_node_left_without_its_leader", 0)))
     es = cov["even_split"]
     if es.get("both_halves_ran_elections_even_split", 0) < ctx.scale(6, 150):
         floors.append("even_split histories in which both halves ran elections during the split: %d"
